@@ -12,3 +12,5 @@ import EmuVerif.Props.C07
 #print axioms EmuVerif.Props.C07.column_of_T
 #print axioms EmuVerif.Props.C07.vectors_orthonormal
 #print axioms EmuVerif.Props.C07.orthoN_iff_orthonormal
+#print axioms EmuVerif.Props.C07.early_accept_witness
+#print axioms EmuVerif.Props.C07.neglected_second_order_term
